@@ -31,6 +31,10 @@ pub struct TreeCfg {
     pub dsd_allow: bool,
     #[serde(default)]
     pub profile: bool,
+    /// fragment parsing through parse_fragment_for_element with a caller-created
+    /// HTML form element as the form pointer
+    #[serde(default)]
+    pub form_ptr: bool,
 }
 
 impl Default for TreeCfg {
@@ -46,6 +50,7 @@ impl Default for TreeCfg {
             discard_bom: false,
             dsd_allow: false,
             profile: false,
+            form_ptr: false,
         }
     }
 }
@@ -108,7 +113,17 @@ pub fn make_parser<S: TreeSink>(sink: S, cfg: &TreeCfg) -> Parser<S> {
                     value: StrTendril::from(v.as_str()),
                 })
                 .collect();
-            parse_fragment(sink, opts, name, attrs, cfg.scripting)
+            if cfg.form_ptr {
+                let ctx = html5ever::tree_builder::create_element(&sink, name, attrs);
+                let form = html5ever::tree_builder::create_element(
+                    &sink,
+                    QualName::new(None, Namespace::from(ns_url("html")), LocalName::from("form")),
+                    vec![],
+                );
+                html5ever::driver::parse_fragment_for_element(sink, opts, ctx, cfg.scripting, Some(form))
+            } else {
+                parse_fragment(sink, opts, name, attrs, cfg.scripting)
+            }
         },
     }
 }
